@@ -477,6 +477,23 @@ theorem C15_handler_replaced_witness :
     ∧ registeredX ws .streamable [.mw [⟨0, .pass⟩], .other t!"WithSSEServerLogger", .mw [⟨1, .pass⟩]] = [⟨0, .pass⟩, ⟨1, .pass⟩] := by
   decide
 
+/-! ## overlapping requests of one session -/
+
+/-- **Every request passes the chain, however many others of its session are in flight**: with an unconditional
+    hand-over a message is served exactly as if it were alone — all theorems about `serve` / `run` hold for each of any
+    number of overlapping requests. -/
+theorem C15_overlap_every_request_served (f : Facts) (tr : Transport) (opts : List (List Stage)) (h : Req → Out)
+    (inflight : Nat) (m : Msg) : serveOverlapping f none tr opts h inflight m = serve f tr opts h m := by
+  simp [serveOverlapping, admitted]
+
+/-- The family is not trivial in the gate: behind a non-blocking gate of 16 tokens the 17th overlapping request has an
+    empty trace and no answer (the first 16 are served), and the predicate rejects the shape such a gate has in the source. -/
+theorem C15_gate_witness (f : Facts) (tr : Transport) (opts : List (List Stage)) (h : Req → Out) (m : Msg) :
+    serveOverlapping f (some 16) tr opts h 16 m = ([], none)
+    ∧ serveOverlapping f (some 16) tr opts h 15 m = serve f tr opts h m
+    ∧ dispatchNeverDrops [t!"decl", t!"unmarshal-guard", t!"select-default", t!"go-other"] sseProcessDirect true 0 = false := by
+  refine ⟨?_, ?_, by decide⟩ <;> simp [serveOverlapping, admitted]
+
 /-! ## the facts of today's source -/
 
 theorem C15_fact_first_registered_outermost :
@@ -495,6 +512,14 @@ theorem C15_handler_not_replaced : handlerNotReplaced Mcp.Gen.mwHandlerWriters =
 
 /-- … and both struct types that carry such a field are covered by that table. -/
 theorem C15_fact_handler_holders : Mcp.Gen.mwHandlerHolders = [t!"SSEServer", t!"Server"] := by decide
+
+/-- **No path drops a request after acknowledging it**: in today's source `handleRequestMessage` is
+    `var request; parse guard; go s.processRequestAsync(…)`, `processRequestAsync` reaches `mcpHandler.handleRequest`
+    behind nothing but the detached context and the roots-response guard, the 202 in `handleMessage` is directly followed by
+    the request branch, and the Streamable POST path contains no `select`. -/
+theorem C15_fact_dispatch_never_drops :
+    dispatchNeverDrops Mcp.Gen.mwSSEDispatchShape Mcp.Gen.mwSSEProcessPrefix Mcp.Gen.mwSSEAckThenDispatch
+      Mcp.Gen.mwStreamableDispatchSelects = true := by decide
 
 /-- **The code as it is today** is in the compliant region (together with `C15_fact_first_registered_outermost`:
     `handleRequest` builds the chain once per request around the dispatch function and runs it once): a request against a server built from `opts` on
@@ -520,6 +545,17 @@ theorem C15_code_serve_any_order (tr : Transport) (opts : List Opt) (h : Req →
       = ((run (Opt.groups opts).flatten h r).1, some (respond (-32603) (run (Opt.groups opts).flatten h r).2)) := by
   rw [C15_option_order codeFacts codeWriters C15_handler_not_replaced tr opts h (.request r)]
   exact (C15_code_serve tr (Opt.groups opts) h r).1
+
+/-- **The code as it is today, any number of overlapping requests**: a request that arrives while `inflight` others
+    of its session are being processed yields exactly the onion run, on both transports. -/
+theorem C15_code_serve_overlapping (tr : Transport) (opts : List (List Stage)) (h : Req → Out) (inflight : Nat) (r : Req) :
+    serveOverlapping codeFacts (codeGate tr) tr opts h inflight (.request r)
+      = ((run opts.flatten h r).1, some (respond (-32603) (run opts.flatten h r).2)) := by
+  have hg : codeGate tr = none := by
+    unfold codeGate
+    rw [C15_fact_dispatch_never_drops]; rfl
+  rw [hg, C15_overlap_every_request_served]
+  exact (C15_code_serve tr opts h r).1
 
 /-! ## non-vacuity: concrete instances -/
 
@@ -569,5 +605,25 @@ example :
        .mw [⟨2, .modRes⟩]] (fun r => .ok (.handler r.mods) []) (.request {}) =
       ([.before 0 [], .before 1 [0], .before 2 [0], .handler [0], .after 2 (.ok (.handler [0]) []),
         .after 1 (.ok (.handler [0]) [2]), .after 0 (.ok (.handler [0]) [2])], some (.result (.handler [0]) [2])) := by decide
+
+/-- the dispatch predicate accepts exactly the straight-line shapes: a gate (`select` with `default`), an early return,
+    a hand-over hidden in a closure, an extra guard in front of the chain, a `select` on the Streamable path, a missing
+    function are all rejected. -/
+example :
+    dispatchNeverDrops sseDispatchDirect sseProcessDirect true 0 = true
+    ∧ dispatchNeverDrops [t!"decl", t!"unmarshal-guard", t!"select-default", t!"go-other"] sseProcessDirect true 0 = false
+    ∧ dispatchNeverDrops [t!"decl", t!"unmarshal-guard", t!"if-other", t!"go-dispatch"] sseProcessDirect true 0 = false
+    ∧ dispatchNeverDrops [t!"decl", t!"unmarshal-guard", t!"go-other"] sseProcessDirect true 0 = false
+    ∧ dispatchNeverDrops sseDispatchDirect [t!"detach", t!"if-other", t!"roots-response-guard"] true 0 = false
+    ∧ dispatchNeverDrops sseDispatchDirect [t!"detach", t!"roots-response-guard", t!"missing-dispatch"] true 0 = false
+    ∧ dispatchNeverDrops sseDispatchDirect sseProcessDirect false 0 = false
+    ∧ dispatchNeverDrops sseDispatchDirect sseProcessDirect true 1 = false
+    ∧ dispatchNeverDrops [t!"missing"] sseProcessDirect true 0 = false := by decide
+
+/-- forty requests of one legacy SSE session in flight: the forty-first is served like any other at today's facts. -/
+example :
+    serveOverlapping codeFacts (codeGate .sse) .sse [[⟨0, .modReq⟩], [⟨1, .modRes⟩]] (fun r => .ok (.handler r.mods) []) 40 (.request {}) =
+      ([.before 0 [], .before 1 [0], .handler [0], .after 1 (.ok (.handler [0]) []), .after 0 (.ok (.handler [0]) [1])],
+        some (.result (.handler [0]) [1])) := by decide
 
 end Mcp.Props.C15
